@@ -236,8 +236,39 @@ func ZZH9cHistory() {
 	line, col := 0, 0
 	var want []zzSeg
 	var names []string
+	// the map may be requested at any point of the history (and more than once):
+	// every request must decode to the mappings recorded up to then
+	verify := func() {
+		sm := m.SourceMap()
+		sym.Assert(sm.Version == 3, "version-3")
+		sym.Assert(len(sm.Names) == len(names), "names-count")
+		for j := range names {
+			if j < len(sm.Names) {
+				sym.Assert(sm.Names[j] == names[j], "names-first-seen-order")
+			}
+		}
+		raw := sym.Symbolic()
+		segs, ok := zzDecodeMappings(sm.Mappings, raw)
+		sym.Assert(ok, "mappings-decodable")
+		sym.Assert(len(segs) == len(want), "segment-count")
+		for i := range want {
+			g, w := segs[i], want[i]
+			sym.Observe("seg", g.GenLine, g.GenCol, g.SrcLine, g.SrcCol, g.HasName, g.Name)
+			sym.Assert(g.GenLine == w.GenLine, "generated-line")
+			sym.Assert(g.GenCol == w.GenCol, "generated-column")
+			if len(want) > 0 {
+				sym.Assert(g.Src == 0, "source-index")
+			}
+			sym.Assert(g.SrcLine == w.SrcLine, "source-line")
+			sym.Assert(g.SrcCol == w.SrcCol, "source-column")
+			sym.Assert(g.HasName == w.HasName, "has-name")
+			if w.HasName {
+				sym.Assert(g.Name == w.Name, "name-index")
+			}
+		}
+	}
 	for i := 0; i < nops; i++ {
-		switch sym.Choose("op", 5) {
+		switch sym.Choose("op", 6) {
 		case 0:
 			sl, sc := sym.Int("srcline"), sym.Int("srccol")
 			sym.Assume(sym.And(zzRange(sl, 0, 1<<30), zzRange(sc, 0, 1<<30)))
@@ -286,35 +317,11 @@ func ZZH9cHistory() {
 			m.AdvanceLine()
 			line++
 			col = 0
+		case 5:
+			verify()
 		}
 	}
-	sm := m.SourceMap()
-	sym.Assert(sm.Version == 3, "version-3")
-	sym.Assert(len(sm.Names) == len(names), "names-count")
-	for j := range names {
-		if j < len(sm.Names) {
-			sym.Assert(sm.Names[j] == names[j], "names-first-seen-order")
-		}
-	}
-	raw := sym.Symbolic()
-	segs, ok := zzDecodeMappings(sm.Mappings, raw)
-	sym.Assert(ok, "mappings-decodable")
-	sym.Assert(len(segs) == len(want), "segment-count")
-	for i := range want {
-		g, w := segs[i], want[i]
-		sym.Observe("seg", g.GenLine, g.GenCol, g.SrcLine, g.SrcCol, g.HasName, g.Name)
-		sym.Assert(g.GenLine == w.GenLine, "generated-line")
-		sym.Assert(g.GenCol == w.GenCol, "generated-column")
-		if len(want) > 0 {
-			sym.Assert(g.Src == 0, "source-index")
-		}
-		sym.Assert(g.SrcLine == w.SrcLine, "source-line")
-		sym.Assert(g.SrcCol == w.SrcCol, "source-column")
-		sym.Assert(g.HasName == w.HasName, "has-name")
-		if w.HasName {
-			sym.Assert(g.Name == w.Name, "name-index")
-		}
-	}
+	verify()
 	sym.Cover("end")
 }
 
